@@ -12,6 +12,7 @@ import types
 from vf import spec as S
 
 _installed_labels = []
+_installed_packages = []
 _base_installed = None
 _scratch = None
 _set = False
@@ -96,9 +97,11 @@ def uninstall():
         _set = False
     for label in _installed_labels:
         apps.all_models.pop(label, None)
+    for pkgname in _installed_packages:
         for name in list(sys.modules):
-            if name == label or name.startswith(label + '.'):
+            if name == pkgname or name.startswith(pkgname + '.'):
                 del sys.modules[name]
+    del _installed_packages[:]
     _installed_labels = []
     apps.clear_cache()
     from vf import bootstrap
@@ -127,13 +130,16 @@ def install(project, evolutions=None, migrations=None, extra_installed=()):
     warnings.simplefilter('ignore')
     for app in project['apps']:
         label = app['label']
-        path = os.path.join(root, label)
+        # the package (module) name may differ from the app label
+        pkgname = app.get('package') or label
+        _installed_packages.append(pkgname)
+        path = os.path.join(root, pkgname)
         os.makedirs(path, exist_ok=True)
-        pkg = _mod(label, path, True)
-        mm = _mod(label + '.models', path, False)
+        pkg = _mod(pkgname, path, True)
+        mm = _mod(pkgname + '.models', path, False)
         pkg.models = mm
         for ms in app['models']:
-            attrs = {'__module__': label + '.models'}
+            attrs = {'__module__': pkgname + '.models'}
             for fs in ms['fields']:
                 attrs[fs['name']] = build_field(fs)
             mopts = build_meta_options(ms)
@@ -148,13 +154,14 @@ def install(project, evolutions=None, migrations=None, extra_installed=()):
             shutil.rmtree(epath)
         if evo is not None:
             os.makedirs(epath, exist_ok=True)
-            em = _mod(label + '.evolutions', epath, True)
+            em = _mod(pkgname + '.evolutions', epath, True)
             em.SEQUENCE = list(evo['SEQUENCE'])
             for k, v in (evo.get('top') or {}).items():
                 setattr(em, k, v)
             pkg.evolutions = em
             for elabel, body in evo['modules'].items():
-                sm = _mod('%s.evolutions.%s' % (label, elabel), epath, False)
+                sm = _mod('%s.evolutions.%s' % (pkgname, elabel), epath,
+                          False)
                 for k, v in body.items():
                     setattr(sm, k, v)
                 setattr(em, elabel, sm)
@@ -171,12 +178,12 @@ def install(project, evolutions=None, migrations=None, extra_installed=()):
             # imported for real through the (synthetic) parent package's
             # __path__, so that Django's loader can list and reload it
             for name in list(sys.modules):
-                if name.startswith(label + '.migrations'):
+                if name.startswith(pkgname + '.migrations'):
                     del sys.modules[name]
             importlib.invalidate_caches()
             sys.dont_write_bytecode = True
-            importlib.import_module(label + '.migrations')
-        cfg = AppConfig(label, pkg)
+            importlib.import_module(pkgname + '.migrations')
+        cfg = AppConfig(pkgname, pkg)
         cfg.label = label
         cfgs.append(cfg)
         _installed_labels.append(label)
